@@ -545,14 +545,16 @@ def gen_script_case(rng, idx):
     t0 = DAY0 + hh * 3600 + mm * 60 + rng.choice([0, 7.5, 30])
     stmts, costs = [], []
     raw = False
+    mode = 'logical'        # seconds in `logical` and `rgb` units, milliseconds only in `raw`
     have_time = False
     has_at = False
     for i in range(rng.randint(2, 8)):
         r = rng.random()
         if r < 0.35 or not have_time:
             if rng.random() < 0.25 and not has_pattern(stmts):
-                raw = not raw
-                stmts.append(('units', 'raw' if raw else 'logical'))
+                mode = rng.choice([m for m in ('logical', 'raw', 'rgb') if m != mode])
+                raw = mode == 'raw'
+                stmts.append(('units', mode))
             if raw:
                 v = rng.choice([0, 125, 250, 500, 750, 1500, 2000, 3250, 4000 * rng.randint(1, 3)])
             else:
@@ -571,8 +573,9 @@ def gen_script_case(rng, idx):
             have_time = False
             continue
         elif r < 0.55 and not has_pattern(stmts):
-            raw = not raw
-            stmts.append(('units', 'raw' if raw else 'logical'))
+            mode = rng.choice([m for m in ('logical', 'raw', 'rgb') if m != mode])
+            raw = mode == 'raw'
+            stmts.append(('units', mode))
             continue
         if rng.random() < 0.5:
             stmts.append(('wait',))
@@ -617,6 +620,11 @@ FIXED_SCRIPT = [
     ([('time', 1.5), ('units', 'raw'), ('wait',), ('cmd', 'on all')], [0.25]),
     ([('time', 0), ('wait',), ('cmd', 'on all'), ('cmd', 'off all')], [1.0, 0.5]),
     ([('units', 'raw'), ('time', 0), ('wait',), ('time', 250), ('cmd', 'on all')], [0.0]),
+    # seconds in rgb units too; every edge between the three modes with a delay pending
+    ([('units', 'rgb'), ('time', 1.5), ('wait',), ('cmd', 'on all'), ('cmd', 'off all')], [0.25, 0.0]),
+    ([('time', 2), ('units', 'rgb'), ('wait',), ('units', 'raw'), ('wait',), ('units', 'rgb'), ('wait',),
+      ('units', 'logical'), ('wait',), ('units', 'raw'), ('wait',), ('units', 'logical'), ('cmd', 'on all')], [0.5]),
+    ([('units', 'raw'), ('time', 750), ('units', 'rgb'), ('cmd', 'on all'), ('time', 0.5), ('wait',)], [0.125]),
 ]
 
 
@@ -732,11 +740,14 @@ def main():
             wait_cases.append((True, 125 * rng.randint(-4, 40000)))
         else:
             wait_cases.append((False, dy(rng, -2, 4000, 8)))
+    # seconds in rgb units as in logical ones ("milliseconds only in raw units")
+    wait_cases = [(raw, v, False) for raw, v in wait_cases] + \
+                 [(False, v, True) for raw, v in wait_cases if not raw]
     env.configure_basic(env_trace)
-    for raw, v in wait_cases:
+    for raw, v, rgb in wait_cases:
         m = Machine()
         m.reset()
-        m._reg.unit_mode = UnitMode.RAW if raw else UnitMode.LOGICAL
+        m._reg.unit_mode = UnitMode.RAW if raw else (UnitMode.RGB if rgb else UnitMode.LOGICAL)
         m._reg.time = v
         del env_trace[:]
         m._wait()
@@ -752,8 +763,8 @@ def main():
             if len(got) != 1 or got[0][0] != 'pause' or frac(got[0][1]) != want_d:
                 chk.violation('raw-not-ms' if raw else 'wrong-delay-value',
                               'time {} in {} units: the clock was asked for {}, the script denotes {} s'
-                              .format(v, 'raw' if raw else 'logical', got, want_d),
-                              {'time': v, 'raw': raw})
+                              .format(v, 'raw' if raw else ('rgb' if rgb else 'logical'), got, want_d),
+                              {'time': v, 'raw': raw, 'rgb': rgb})
             impl = 'delay ' + rat(got[0][1]) if got else 'nothing'
         requests.append(('clk.wait', ['n:' + rat(v), 'raw' if raw else 'logical'], impl,
                          {'time': v, 'raw': raw}))
